@@ -1112,4 +1112,51 @@ theorem dateSimilarity_is_the_source (l r m : Dbl) :
     rw [← e1, absdiff_one p hp]
     simp
 
+open Gedcom.SimSrc in
+/-- **The name/date mix of `(*IndividualNode).Similarity` in the model is the regenerated source
+    expression, evaluated in float64 in the source's order**:
+    `nameSimilarity*ratio + (birth+death)/2.0*(1.0-ratio)` as read from individual_node.go on
+    this run (the nil guard returns the constant 0.5 = `half`). -/
+theorem mixF_is_the_source (name birth death ratio : Dbl) :
+    mixF name birth death ratio =
+      Generated.srcIndividual.evalF (fun v => match v with
+        | .name => name | .birth => birth | .death => death | .ratio => ratio | _ => ⟨0, 0⟩) ∧
+    Generated.srcIndividual.nilValue = some (.lit 1 2) ∧
+    F64.le (litF 1 2) half ∧ F64.le half (litF 1 2) := by
+  refine ⟨?_, rfl, by decide +kernel, by decide +kernel⟩
+  unfold mixF Fn.evalF Generated.srcIndividual
+  simp only [List.find?, AExp.evalF, litF, if_true]
+
+/-! ### `WeightedSimilarity` on the float64 values -/
+
+/-- **Bounds**: the float64 weighted similarity never exceeds one (the source cuts the sum) -/
+theorem weightedF_le_one (ind par spo chi wI wP wS wC : Dbl) :
+    F64.le (weightedF ind par spo chi wI wP wS wC) one := by
+  unfold weightedF
+  split
+  · unfold F64.le one; simp
+  · rename_i h
+    rw [le_iff_toQ]; rw [lt_iff_toQ] at h; exact not_lt.mp h
+
+/-- the pre-repair rule at the witness: with all four components equal to one and the weights
+    0.4, 0.2, 0.3, 0.1 (which sum to one on paper) the float64 sum of the products is
+    1.0000000000000002 — above one — which is what `WeightedSimilarity` returned before the cut -/
+theorem weighted_sum_exceeds_one_regression :
+    F64.lt one (weightedSumF one one one one (rnd 4 10) (rnd 2 10) (rnd 3 10) (rnd 1 10)) := by
+  decide +kernel
+
+open Gedcom.SimSrc in
+/-- **`WeightedSimilarity` in the model is the regenerated source, evaluated in float64 in the
+    source's order** (four products, three additions from the left, the `> 1` guard) -/
+theorem weightedF_is_the_source (ind par spo chi wI wP wS wC : Dbl) :
+    weightedF ind par spo chi wI wP wS wC =
+      Generated.srcWeighted.evalF (fun v => match v with
+        | .ind => ind | .par => par | .spo => spo | .chi => chi
+        | .wInd => wI | .wPar => wP | .wSpo => wS | .wChi => wC | _ => ⟨0, 0⟩) := by
+  unfold weightedF weightedSumF Fn.evalF Generated.srcWeighted
+  simp only [List.find?, Guard.firesF, Cmp.holdsF, AExp.evalF, litF, if_true]
+  have e1 : ofNat 1 = one := rfl
+  rw [e1]
+  split <;> rename_i h <;> simp [h] <;> rfl
+
 end Gedcom.C12F
